@@ -4,14 +4,18 @@
 //!        search -> JSON lines {"signature","what","case"} for violations + {"summary":{..}}
 //!   c29 one --case-json '{"docs":[..],"hist":[..]}' --dir D [--repeat R]
 //! docs: [{"kind":"D"|"V"}]   D: workspace file that is on disk (disk text = text 0), V: workspace uri not on disk
-//! hist: ["open",doc,k] ["change",doc,k] ["close",doc] ["reload"] ["sleep",ms]
+//! hist: ["open",doc,k] ["change",doc,k] ["close",doc] ["reload"] ["sleep",ms] ["hold"] ["release"]
 //!       "reload" = a `.emmyrc.json` changed event: the server reloads the workspace after its 2 s debounce
+//!       "hold"   = wait for the reload's `window/workDoneProgress/create` request (sent after the open-files
+//!                  snapshot was taken and before init_analysis takes the analysis write lock) and do NOT answer
+//!                  it yet; the following notifications are therefore handled inside that window (wire order);
+//!       "release" = answer the held request
 //! obs : per doc {"open": k|null, "analysed": k|null|999999}  taken at quiescence through the hook verif/docState
 //! Every history uses fresh uris; all histories of a run go to ONE server.
 #[path = "../memserver.rs"]
 mod memserver;
 
-use lsp_server::RequestId;
+use lsp_server::{Message, RequestId, Response};
 use memserver::*;
 use serde_json::{Value, json};
 use std::collections::BTreeMap;
@@ -34,10 +38,59 @@ struct Ctx {
     fresh: u64,
     next_id: i32,
     version: i64,
+    responses: Vec<Response>,
+    /// wait for the next LoadWorkspace progress-create request and keep it unanswered
+    want_hold: bool,
+    held: Option<RequestId>,
+    holds_hit: u64,
+    holds_missed: u64,
+}
+
+/// receive one message: answers server->client requests (except a held progress-create request)
+fn pump(cx: &mut Ctx, timeout: Duration) -> bool {
+    match cx.srv.client.receiver.recv_timeout(timeout) {
+        Ok(Message::Response(r)) => {
+            cx.responses.push(r);
+            true
+        }
+        Ok(Message::Request(r)) => {
+            if cx.want_hold && cx.held.is_none() && r.method == "window/workDoneProgress/create" && r.params["token"] == json!(0) {
+                cx.held = Some(r.id);
+                cx.want_hold = false;
+            } else {
+                let _ = cx.srv.client.sender.send(Message::Response(Response::new_ok(r.id, Value::Null)));
+            }
+            true
+        }
+        Ok(Message::Notification(_)) => true,
+        Err(_) => false,
+    }
+}
+
+fn pump_for(cx: &mut Ctx, d: Duration) {
+    let t0 = Instant::now();
+    while t0.elapsed() < d {
+        let left = d.checked_sub(t0.elapsed()).unwrap_or(Duration::from_millis(1));
+        pump(cx, left.min(Duration::from_millis(20)));
+    }
+}
+
+/// pump until nothing arrived for `quiet` (at most `max`)
+fn pump_quiet(cx: &mut Ctx, quiet: Duration, max: Duration) {
+    let t0 = Instant::now();
+    let mut last = Instant::now();
+    while t0.elapsed() < max && last.elapsed() < quiet {
+        if pump(cx, Duration::from_millis(10)) {
+            last = Instant::now();
+        }
+    }
 }
 
 fn caps() -> Value {
-    json!({"workspace": {"configuration": false, "didChangeWatchedFiles": {"dynamicRegistration": true}}, "textDocument": {}})
+    // work-done progress: the reload asks the client to create its progress token between the open-files
+    // snapshot and init_analysis, which lets a history place notifications inside that window
+    json!({"workspace": {"configuration": false, "didChangeWatchedFiles": {"dynamicRegistration": true}}, "textDocument": {},
+           "window": {"workDoneProgress": true}})
 }
 
 fn start(args: &Args, need_d: usize) -> Ctx {
@@ -65,15 +118,24 @@ fn start(args: &Args, need_d: usize) -> Ctx {
     assert!(srv.wait_ready(1), "server did not become ready");
     srv.drain(Duration::from_millis(300), Duration::from_secs(5));
     srv.take_inbox();
-    Ctx { srv, root, pool_d, fresh: 0, next_id: 10, version: 1 }
+    Ctx { srv, root, pool_d, fresh: 0, next_id: 10, version: 1, responses: Vec::new(), want_hold: false, held: None, holds_hit: 0, holds_missed: 0 }
 }
 
 fn probe(cx: &mut Ctx, uris: &[String]) -> Option<Vec<Value>> {
     cx.next_id += 1;
     let id = RequestId::from(cx.next_id);
     cx.srv.send_req(id.clone(), "verif/docState", json!({"uris": uris}));
-    let r = cx.srv.wait_response(&id, Duration::from_secs(30))?;
-    r.result.and_then(|v| v.as_array().cloned())
+    let t0 = Instant::now();
+    loop {
+        if let Some(pos) = cx.responses.iter().position(|r| r.id == id) {
+            let r = cx.responses.remove(pos);
+            return r.result.and_then(|v| v.as_array().cloned());
+        }
+        if t0.elapsed() > Duration::from_secs(30) {
+            return None;
+        }
+        pump(cx, Duration::from_millis(20));
+    }
 }
 
 fn gen_history(rng: &mut Rng) -> (Vec<Value>, Vec<Value>) {
@@ -90,6 +152,30 @@ fn gen_history(rng: &mut Rng) -> (Vec<Value>, Vec<Value>) {
         }
         *k += 1;
     };
+    if rng.chance(2, 5) {
+        // edits of ALREADY OPEN documents placed between the reload's snapshot and init_analysis
+        for d in 0..nd {
+            hist.push(json!(["open", d, k]));
+            k += 1;
+        }
+        hist.push(json!(["sleep", rng.range(20, 120)]));
+        hist.push(json!(["reload"]));
+        hist.push(json!(["hold"]));
+        for _ in 0..rng.range(1, 4) {
+            let d = rng.below(nd);
+            if rng.chance(4, 5) {
+                hist.push(json!(["change", d, k]));
+            } else {
+                hist.push(json!(["close", d]));
+            }
+            k += 1;
+        }
+        hist.push(json!(["release"]));
+        for _ in 0..rng.range(0, 3) {
+            edit(rng, &mut hist, &mut k);
+        }
+        return (docs, hist);
+    }
     // a few edits before the reload request
     for _ in 0..rng.range(0, 4) {
         edit(rng, &mut hist, &mut k);
@@ -134,20 +220,38 @@ fn run_history(cx: &mut Ctx, docs: &[Value], hist: &[Value]) -> Vec<Value> {
                 cx.srv.send_notif("workspace/didChangeWatchedFiles", json!({"changes": [{"uri": format!("{}/.emmyrc.json", cx.srv.root_uri), "type": 2}]}));
                 last_reload = Some(Instant::now());
             }
-            "sleep" => {
-                // keep answering the server's requests while sleeping
-                cx.srv.drain(Duration::from_millis(h[1].as_u64().unwrap_or(1)), Duration::from_millis(h[1].as_u64().unwrap_or(1)));
+            "sleep" => pump_for(cx, Duration::from_millis(h[1].as_u64().unwrap_or(1))),
+            "hold" => {
+                cx.want_hold = true;
+                let t0 = Instant::now();
+                while cx.held.is_none() && t0.elapsed() < Duration::from_secs(8) {
+                    pump(cx, Duration::from_millis(20));
+                }
+                if cx.held.is_some() {
+                    cx.holds_hit += 1;
+                } else {
+                    cx.holds_missed += 1;
+                    cx.want_hold = false;
+                }
+            }
+            "release" => {
+                if let Some(id) = cx.held.take() {
+                    let _ = cx.srv.client.sender.send(Message::Response(Response::new_ok(id, Value::Null)));
+                }
             }
             _ => {}
         }
     }
     // quiescence: the debounce (2 s) + the reload itself, then silence
+    if let Some(id) = cx.held.take() {
+        let _ = cx.srv.client.sender.send(Message::Response(Response::new_ok(id, Value::Null)));
+    }
     if let Some(t) = last_reload {
         while t.elapsed() < Duration::from_millis(2400) {
-            cx.srv.drain(Duration::from_millis(50), Duration::from_millis(100));
+            pump_for(cx, Duration::from_millis(50));
         }
     }
-    cx.srv.drain(Duration::from_millis(700), Duration::from_secs(20));
+    pump_quiet(cx, Duration::from_millis(700), Duration::from_secs(20));
     let st = probe(cx, &uris).unwrap_or_default();
     let f = |v: &Value| match v {
         Value::String(s) => json!(id_of(s)),
@@ -161,7 +265,7 @@ fn run_history(cx: &mut Ctx, docs: &[Value], hist: &[Value]) -> Vec<Value> {
     for u in &uris {
         cx.srv.send_notif("textDocument/didClose", json!({"textDocument": {"uri": u}}));
     }
-    cx.srv.take_inbox();
+    cx.responses.clear();
     obs
 }
 
@@ -256,7 +360,8 @@ fn main() {
                     }
                 }
             }
-            writeln!(out, "{}", json!({"summary": {"histories": cases.len(), "corpus": ncorpus, "distinct_nontrivial": distinct.len(), "ops": dist, "violations": nviol}})).unwrap();
+            writeln!(out, "{}", json!({"summary": {"histories": cases.len(), "corpus": ncorpus, "distinct_nontrivial": distinct.len(), "ops": dist, "violations": nviol,
+                "snapshot_window_holds_hit": cx.holds_hit, "snapshot_window_holds_missed": cx.holds_missed}})).unwrap();
             let _ = std::fs::remove_dir_all(&cx.root);
             out.flush().unwrap();
             std::process::exit(0);
